@@ -36,12 +36,16 @@ type Party interface {
 	advance()
 	lock()
 	unlock()
+	setStoredBeforeStart()
+	storedBeforeStart() bool
 }
 
 type BaseParty struct {
 	mtx        sync.Mutex
 	rnd        Round
 	FirstRound Round
+	// a message was stored while no round was set (i.e. before Start)
+	storedEarly bool
 }
 
 func (p *BaseParty) Running() bool {
@@ -105,6 +109,14 @@ func (p *BaseParty) advance() {
 	p.rnd = p.rnd.NextRound()
 }
 
+func (p *BaseParty) setStoredBeforeStart() {
+	p.storedEarly = true
+}
+
+func (p *BaseParty) storedBeforeStart() bool {
+	return p.storedEarly
+}
+
 func (p *BaseParty) lock() {
 	p.mtx.Lock()
 }
@@ -138,9 +150,27 @@ func BaseStart(p Party, task string, prepare ...func(Round) *Error) *Error {
 	}
 	common.Logger.Infof("party %s: %s round %d starting", p.round().Params().PartyID(), task, 1)
 	defer func() {
-		common.Logger.Debugf("party %s: %s round %d finished", p.round().Params().PartyID(), task, 1)
+		common.Logger.Debugf("party %s: %s round %d finished", p.PartyID(), task, 1)
 	}()
-	return p.round().Start()
+	if err := p.round().Start(); err != nil {
+		return err
+	}
+	// messages delivered before Start() were only stored: let them complete rounds now,
+	// otherwise a party whose inbox was already full would wait forever for a trigger
+	for p.storedBeforeStart() && p.round() != nil {
+		if _, err := p.round().Update(); err != nil {
+			return err
+		}
+		if !p.round().CanProceed() {
+			break
+		}
+		if p.advance(); p.round() != nil {
+			if err := p.round().Start(); err != nil {
+				return err
+			}
+		}
+	}
+	return nil
 }
 
 // an implementation of Update that is shared across the different types of parties (keygen, signing, dynamic groups)
@@ -183,5 +213,6 @@ func BaseUpdate(p Party, msg ParsedMessage, task string) (ok bool, err *Error) {
 		}
 		return r(true, nil)
 	}
+	p.setStoredBeforeStart()
 	return r(true, nil)
 }
